@@ -105,6 +105,7 @@ pub fn run_ops(tok: &Tokenizer, nw: usize, ops: &[Op], lattice: bool, wbase: usi
 pub fn run_ops_iso(tok: &Tokenizer, nw: usize, ops: &[Op], lattice: bool, wbase: usize, out: &mut Vec<Value>, iso: bool) {
     let mut workers: Vec<Worker> = (0..nw).map(|_| tok.new_worker()).collect();
     for op in ops {
+        crate::progress::beat();
         let r = catch_unwind(AssertUnwindSafe(|| {
             let mut ev: Vec<Value> = vec![];
             match op {
@@ -204,6 +205,7 @@ pub fn open_session(si: &SessionIn, out: &mut Vec<Value>) -> Option<Tokenizer> {
 }
 
 pub fn run_session(si: &SessionIn, out: &mut Vec<Value>) {
+    crate::progress::note(&si.to_json().to_string());
     if let Some(tok) = open_session(si, out) {
         run_ops_iso(&tok, si.nw, &si.ops, si.lattice, 0, out, si.d.iso);
     }
